@@ -617,6 +617,21 @@ def check_load_malformed(a, info):
             del data[x % n]
         elif kind == "insert":
             data.insert(x % (n + 1), y)
+        elif kind == "insert-line-near-text":
+            # the same, placed 0..3 lines before a line holding multi-byte characters: the text the parser could not
+            # read (and which ends up in the error message) then starts shortly before them
+            lines = bytes(data).splitlines(keepends=True)
+            marked = [i for i, l in enumerate(lines) if any(b >= 0x80 for b in l)]
+            if marked:
+                at = max(0, marked[x % len(marked)] - (y % 4))
+                lines.insert(at, [b"TY  Motif\n", b"ZZ  x\n", b"Q" * (1 + y % 7) + b"\n", b"\n"][y % 4])
+                data = bytearray(b"".join(lines))
+        elif kind == "insert-line":
+            # a line no format knows, or a known line in an odd place: the parser fails with a long remainder
+            lines = bytes(data).splitlines(keepends=True)
+            extra = [b"TY  Motif\n", b"ZZ  x\n", b"XX\n", b"//\n", b">x y\n", b"P0  A  C  G  T\n", b"A [ 1 2 ]\n", b"\n"][y % 8]
+            lines.insert(x % (len(lines) + 1), extra)
+            data = bytearray(b"".join(lines))
         elif kind in ("delete-line", "duplicate-line") and n:
             lines = bytes(data).splitlines(keepends=True)
             i = x % len(lines)
@@ -712,10 +727,10 @@ def check_load(a, info):
 
 @st.composite
 def load_args(draw):
-    format_ = draw(st.sampled_from(["jaspar", "jaspar16", "transfac", "uniprobe"]))
+    format_ = draw(st.sampled_from(["jaspar", "jaspar16", "transfac", "transfac", "uniprobe"]))
     protein = False if format_ == "jaspar" else draw(st.booleans())
     ab = letters(protein)
-    word = st.text(alphabet=st.sampled_from("ABCDEFGHIJKLMNOPQRSTUVWXYZabcdefgh0123456789._-"), min_size=1, max_size=10)
+    word = st.text(alphabet="ABCDEFGHIJKLMNOPQRSTUVWXYZabcdefgh0123456789._-", min_size=1, max_size=10)
     n = draw(st.integers(1, 5))
     records = []
     for _ in range(n):
@@ -739,14 +754,17 @@ def load_args(draw):
             for i in range(m):
                 if all(cols[c][i] == 0 for c in symbols):
                     cols[symbols[0]][i] = 1
-        records.append({"name": draw(word), "desc": draw(st.one_of(st.none(), word)), "symbols": symbols, "cols": cols})
+        # descriptions: absent, a short ASCII word, or a longer text with multi-byte characters (accents, Greek, CJK)
+        # (built from a list of characters: Hypothesis' shrinker trips over a text() alphabet with non-ASCII characters)
+        utext = st.lists(st.sampled_from(list("ab éèüñλμ中文ßøж")), min_size=30, max_size=90).map(lambda cs: "d" + " ".join("".join(cs).split()) + "x")
+        records.append({"name": draw(word), "desc": draw(st.one_of(st.none(), word, utext)), "symbols": symbols, "cols": cols})
     return {"format": format_, "protein": protein, "records": records, "crlf": draw(st.booleans()), "via": draw(st.sampled_from(["path", "bytesio", "short-reads"])), "piece": draw(st.sampled_from([1, 7, 100, 5000]))}
 
 
 @st.composite
 def load_malformed_args(draw):
-    mut = st.tuples(st.sampled_from(["truncate", "substitute", "substitute", "delete", "insert", "delete-line", "duplicate-line"]), st.integers(0, 10 ** 6),
-                    st.one_of(st.integers(0, 255), st.sampled_from([10, 13, 62, 91, 93, 9, 32, 47, 58, 0, 255, 195])))
+    mut = st.tuples(st.sampled_from(["truncate", "substitute", "substitute", "delete", "insert", "delete-line", "duplicate-line", "insert-line", "insert-line", "insert-line-near-text", "insert-line-near-text"]), st.integers(0, 10 ** 6),
+                    st.integers(0, 255 + 12).map(lambda v: v if v < 256 else [10, 13, 62, 91, 93, 9, 32, 47, 58, 0, 255, 195][v - 256]))
     return {
         "file": draw(load_args()),
         "mutations": draw(st.lists(mut, min_size=1, max_size=3)),
@@ -770,7 +788,7 @@ SUBS = [
     Sub("log_odds", "CountMatrix from a dict (symbol subset, width 1..12) -> normalize(pseudocount None / float / dict) -> log_odds(background dict of dyadic frequencies or None, base 2 / 10 / e / 3.5); rows compared with (c+p)/total / uniform background and log_base(freq / given background); non-trivial = width >= 2 and (background given or dict pseudocount or base != 2)",
         log_odds_args(), check_log_odds, 400, 6000),
     Sub("bad-arguments", "eight families of invalid calls (alphabet mismatch in calculate / scan, invalid sequence text, bad background, bad pseudocount, malformed matrices, unknown method, bad load input); each must raise ValueError / TypeError / IndexError / OverflowError / OSError / RuntimeError and never PanicException; every case is non-trivial",
-        st.fixed_dictionaries({"kind": st.sampled_from(BAD_KINDS), "text": st.text(alphabet=st.sampled_from("ACGT"), max_size=6)}), check_bad_arguments, 80, 800),
+        st.fixed_dictionaries({"kind": st.sampled_from(BAD_KINDS), "text": st.text(alphabet="ACGT", max_size=6)}), check_bad_arguments, 80, 800),
     Sub("calculate", "sequence (DNA / protein, L 0..200 and around 1024, wildcards) x motif from generated sites (width 1..12) -> ScoringMatrix.calculate on a striped sequence; len, every score (f32 reference in numpy, same summation order), max / argmax / threshold (thresholds at real scores +- 1e-3) compared with the per-position window sums; the whole call chain under the host's dispatcher arm or one forced through the verif-hooks feature (generic / sse2 / avx2); non-trivial = L > 32 (>= 2 striped rows), width >= 2 and >= 1 valid position",
         calculate_args(), check_calculate, 300, 6000),
     Sub("scan", "DNA sequence x motif x threshold (a real score +- 1e-3, -1e6, default, 1e6) x block_size (default, 1..300) -> lightmotif.scan; (position, score) multiset equals the reference; non-trivial = some but not all positions hit",
@@ -783,8 +801,8 @@ SUBS = [
         revcomp_args(), check_revcomp, 200, 4000),
     Sub("load", "1..5 records written in JASPAR / JASPAR 2016 / TRANSFAC / UniPROBE syntax (DNA and protein, symbol subsets, CRLF) loaded from a path, a BytesIO or a duck-typed file object whose read() returns 1 / 7 / 100 / 5000 bytes at a time; names, metadata, counts and pwm / pssm rows equal the written data pushed through the definitions; non-trivial = >= 2 records",
         load_args(), check_load, 200, 4000),
-    Sub("load-malformed", "a valid generated motif file with 1..3 byte / line mutations (truncation, substitution, deletion, insertion, line removal / duplication, invalid UTF-8 bytes), read by lightmotif.load through a BytesIO with its own or (1 in 4) a foreign format: the call must return motifs or raise ValueError / OSError / another ordinary exception, never PanicException (C15 seen from Python); non-trivial = an exception was raised",
-        load_malformed_args(), check_load_malformed, 300, 6000),
+    Sub("load-malformed", "a valid generated motif file with 1..3 byte / line mutations (truncation, substitution, deletion, insertion, line removal / duplication / insertion of unknown or misplaced lines, invalid UTF-8 bytes; descriptions may hold multi-byte characters), read by lightmotif.load through a BytesIO with its own or (1 in 4) a foreign format: the call must return motifs or raise ValueError / OSError / another ordinary exception, never PanicException (C15 seen from Python); non-trivial = an exception was raised",
+        load_malformed_args(), check_load_malformed, 500, 8000),
 ]
 
 ASSUMPTIONS = [
